@@ -34,7 +34,7 @@ PROP = {'lean': 'MpsProps.C12',
                'Mps.C12.gen_dec',
                'Mps.C12.gen_add_mul',
                'Mps.C12.gen_mta'],
- 'suites': [{'name': 'paillier', 'quick': 4, 'thorough': 120}],
+ 'suites': [{'name': 'paillier', 'quick': 4, 'thorough': 120, 'shards': 8}],
  'propfields': {'paillier': ['outcome', 'roundtrip', 'dec', 'rand', 'hom', 'ok', 'same', 'reenc', 'exact', 'exactq', 'fok', 'alpha',
                              'fdec', 'c', 'crt', 'plain', 'agree', 'reduced', 'bezout', 'neg', 'abs', 'r', 'd', 'f', 'beta', 'inrange', 'code', 'go', 'go_exact', 'go_exactq', 'go_fok']},
  'level_text': 'Proof: for ALL key pairs of distinct primes with gcd(pq,(p-1)(q-1))=1, all plaintexts, nonces, ciphertexts and signed scalars, Lean '
